@@ -13,7 +13,9 @@ trap 'git -C /repo worktree remove --force "$WT" >/dev/null 2>&1; rm -rf "$WT" "
 mkdir -p "$OUT"
 build_demo() {
     if [ -f "$SRC/demo.c" ]; then
-	gcc -w -I"$WT/src" -I"$WT" "$SRC/demo.c" "$WT/src/.libs/libvna.a" -lyaml -lm -o /tmp/sv-demo-$$ 2>&1 | tail -3
+	# optional extra link flags of the demo (e.g. -Wl,--wrap=malloc)
+	XLD=; [ -f "$SRC/ldflags" ] && XLD=$(cat "$SRC/ldflags")
+	gcc -w -I"$WT/src" -I"$WT" "$SRC/demo.c" "$WT/src/.libs/libvna.a" $XLD -lyaml -lm -o /tmp/sv-demo-$$ 2>&1 | tail -3
     fi
 }
 (cd "$WT" && make -j16 >/dev/null 2>&1)
